@@ -66,6 +66,25 @@ def exact(rep):
     ok = isinstance(nm, ast.Call) and call_name(nm) == "categorical_node_match" and norm(nm.args[0]) == "self._nkeys" \
         and isinstance(em, ast.Call) and call_name(em) == "categorical_edge_match" and norm(em.args[0]) == "self._ekeys"
     rep.ob("O11.1", "R2", mk, ok, s.call, "node and edge labels are compared on the configured keys (label-preserving automorphisms)", node=s.call)
+    # the defaults handed to categorical_*_match are zipped with the keys: a list built over the OTHER key set is silently truncated to the shorter
+    # one, and the trailing labels drop out of the comparison
+    mdefs = local_defs(mk.node)
+
+    def _keysets(e, depth=0):
+        out = {n_.attr for n_ in ast.walk(e) if isinstance(n_, ast.Attribute) and n_.attr in ("_nkeys", "_ekeys")}
+        for c_ in ast.walk(e):
+            if depth < 2 and isinstance(c_, ast.Call) and isinstance(c_.func, ast.Attribute) and norm(c_.func.value) == "self":
+                hf = rep.repo.maybe_func(AM, "Automorphism." + c_.func.attr)
+                if hf is not None:
+                    out |= _keysets(hf.node, depth + 1)
+        return out
+    for call_, own, other, what_ in ((nm, "_nkeys", "_ekeys", "node"), (em, "_ekeys", "_nkeys", "edge")):
+        if not (isinstance(call_, ast.Call) and len(call_.args) >= 2):
+            continue
+        ks = _keysets(origin(mdefs, call_.args[1]))
+        okd = True if ks == {own} else (False if ks == {other} else None)
+        rep.ob("O11.1", "R2", mk, okd, call_, f"the {what_} defaults are built over the {what_} keys they are zipped with (one default per compared label)",
+               {"key_sets_read": sorted(ks)}, node=call_)
     ac = rep.f(AM, "Automorphism._analyze_component")
     gp = ac.params[1]
     adefs = local_defs(ac.node)
